@@ -92,7 +92,12 @@ func NewWordList(list []string) (*WordList, error) {
 	//
 	// This pass also assumes that everything in unique is "true"
 	unCapable := 0
+	verifVisitBegin(unique)
+verifNextPass:
 	for w := range unique {
+		if !verifVisit(w) {
+			continue
+		}
 		if unique[w] { // it may have been deleted since range was computed
 			cap := strings.Title(w)
 			if unique[cap] {
@@ -105,12 +110,18 @@ func NewWordList(list []string) (*WordList, error) {
 		}
 	}
 
+	if verifVisitMore() {
+		goto verifNextPass
+	}
+
 	// third pass, because life sucks
 	var ourWords []string
 	for w := range unique {
 		ourWords = append(ourWords, w)
 
 	}
+
+	ourWords = verifOrderWords(ourWords)
 
 	if len(list) > len(ourWords) {
 		// We just need to log a warning here. Not sure how we are handling that.
@@ -165,6 +176,7 @@ func (r WLRecipe) Generate() (*Password, error) {
 
 	ts := []Token{}
 	for i := 0; i < r.Length; i++ {
+		verifYield("WLRecipe.Generate:beforeWord")
 		w := r.list.words[randomUint32n(uint32(r.Size()))]
 
 		if capWords[i] {
@@ -174,6 +186,7 @@ func (r WLRecipe) Generate() (*Password, error) {
 			ts = append(ts, Token{w, AtomType})
 		}
 		if i < r.Length-1 {
+			verifYield("WLRecipe.Generate:beforeSeparator")
 			sep, _ := sf()
 			if len(sep) > 0 {
 				ts = append(ts, Token{sep, SeparatorType})
@@ -181,6 +194,7 @@ func (r WLRecipe) Generate() (*Password, error) {
 		}
 	}
 	p.tokens = ts
+	verifYield("WLRecipe.Generate:beforeEntropy")
 	p.Entropy = r.Entropy()
 	return p, nil
 }
@@ -211,6 +225,7 @@ func (r WLRecipe) Entropy() float32 {
 	// Entropy contribution of separators
 	sepEnt := FloatE(0.0)
 	if r.SeparatorFunc != nil {
+		verifYield("WLRecipe.Entropy:beforeSeparatorFunc")
 		_, sepEnt = r.SeparatorFunc()
 	}
 	ent += (FloatE(r.Length) - 1.0) * sepEnt
@@ -254,6 +269,7 @@ func NewSFFunction(r CharRecipe) SFFunction {
 // Pre-baked Separator functions
 
 func sfWrap(r CharRecipe) (string, FloatE) {
+	verifYield("sfWrap")
 	p, err := r.Generate()
 	// perhaps not the best error handling, but can't think of anything better
 	if err != nil {
